@@ -101,9 +101,30 @@ def split_and_parse(r, f, who, ty):
     return tests
 
 
+def choice_sinks(f, gd):
+    """[(block, expr)]: for the definitions of a value chosen on several edges (q.guarded_defs(.., chains=True)), the one
+    block of each choice's chain that no other choice shares; None if some choice has no block of its own"""
+    vals_ = [(ch_, e_) for ch_, c_, e_ in gd if ch_ and e_ != ("never",)]
+    groups_ = {}
+    for ch_, e_ in vals_:
+        g_ = groups_.setdefault((ch_[-1], repr(e_)), [ch_, set(ch_), e_])
+        g_[1] &= set(ch_)
+    cnt_ = {}
+    for k_, (ch_, common_, e_) in groups_.items():
+        for b_ in common_:
+            cnt_[b_] = cnt_.get(b_, 0) + 1
+    out = []
+    for k_, (ch_, common_, e_) in groups_.items():
+        own = [b_ for b_ in ch_ if b_ in common_ and cnt_[b_] == 1 and not f.in_loop(b_)]
+        if not own:
+            return None
+        out.append((own[0], e_))
+    return out
+
+
 def rule_size_table(ctx, p, cfg, rid="L1"):
     with ctx.rule(rid, "size multiplier table", cfg) as r:
-        f = p.fn_closure_calls(SIZE_V + "visit_str")
+        f = p.fn_unrolled(SIZE_V + "visit_str")
         tests = tables.string_key_tests(f)
         sinks = {}
         for c in f.calls():
@@ -116,13 +137,48 @@ def rule_size_table(ctx, p, cfg, rid="L1"):
                 sinks.setdefault(b, ("some", f._rvalue(rv, frozenset(), 30, b)))
             if rv["k"] == "bin" and rv["op"] in ("Mul", "MulWithOverflow", "Shl") and rv.get("ty") == "u64" and tables.fold_int(f._rvalue(rv, frozenset(), 30, b)) is None:
                 sinks[b] = ("rawmul", f._rvalue(rv, frozenset(), 30, b))
+        # a factor looked up first and multiplied once afterwards: the edges that choose the factor are the sinks, each with the
+        # value chosen there (a row of a table, a match arm); the multiplication itself then says nothing per unit
+        looked_up = set()
+        for blk, (kind, x) in list(sinks.items()):
+            if kind == "mul" and tables.fold_int(x.arg(1)) is None and len(x.t.get("args", [])) > 1:
+                gd = q.guarded_defs(f, x.t["args"][1], chains=True)
+                vals_ = [(ch_, tables.fold_int(e_)) for ch_, c_, e_ in gd if ch_ and e_ != ("never",)]
+                if len(vals_) >= 2 and all(v_ is not None for ch_, v_ in vals_):
+                    # the sink of a choice is the one block of its chain that no other choice shares
+                    groups_ = {}
+                    for ch_, v_ in vals_:      # the same choice reached through several outer copies is one choice
+                        g_ = groups_.setdefault((ch_[-1], v_), [ch_, set(ch_)])
+                        g_[1] &= set(ch_)
+                    cnt_ = {}
+                    for (last_, v_), (ch_, common_) in groups_.items():
+                        for b_ in common_:
+                            cnt_[b_] = cnt_.get(b_, 0) + 1
+                    okc = True
+                    for (last_, v_), (ch_, common_) in groups_.items():
+                        own = [b_ for b_ in ch_ if b_ in common_ and cnt_[b_] == 1 and not f.in_loop(b_)]
+                        if not own:
+                            okc = False
+                            break
+                        sinks[own[0]] = ("factor", v_)
+                    if okc:
+                        looked_up.add(blk)
+        for blk in looked_up:
+            del sinks[blk]
+        if looked_up:
+            # payloads that merely carry the row found are not factors
+            for blk, (kind, x) in list(sinks.items()):
+                if kind == "some" and tables.fold_int(dict(x[3]).get("0")) is None:
+                    del sinks[blk]
         tab = tables.key_table(f, tests, list(sinks))
         got = {}
         for key, ss in tab.items():
             vals = set()
             for s in ss:
                 kind, x = sinks[s]
-                if kind == "mul":
+                if kind == "factor":
+                    vals.add(x)
+                elif kind == "mul":
                     vals.add(tables.fold_int(x.arg(1)))
                 elif kind == "some":
                     # Some(number) scales by 1; Some(<constant>) is the factor chosen for this unit (multiplied later)
@@ -144,7 +200,7 @@ def rule_size_table(ctx, p, cfg, rid="L1"):
 
 def rule_size_overflow(ctx, p, cfg, rid="L2"):
     with ctx.rule(rid, "overflow checked", cfg) as r:
-        f = p.fn_closure_calls(SIZE_V + "visit_str")
+        f = p.fn_unrolled(SIZE_V + "visit_str")
         muls = []
         bad = []
         for c in f.calls():
@@ -235,9 +291,9 @@ def run_cfg(ctx, p, cfg):
         ctx.extra.setdefault("panic_inventory", {})[cfg] = dict(st, cone=len(cone))
 
     with ctx.rule("L3", "numbers", cfg) as r:
-        f = p.fn_closure_calls(SIZE_V + "visit_str")
+        f = p.fn_unrolled(SIZE_V + "visit_str")
         split_and_parse(r, f, "size", "u64")
-        g = p.fn_closure_calls(TIME_V + "visit_str")
+        g = p.fn_unrolled(TIME_V + "visit_str")
         split_and_parse(r, g, "interval", "i64")
         # bare number
         for who, fn_, want in (("size", f, None), ("interval", g, "Second")):
@@ -274,6 +330,9 @@ def run_cfg(ctx, p, cfg):
                 nf = cmp_nf(si.discr, True)
                 if nf and nf[0] == "Lt" and deep_strip(nf[2]) == ("const", "int", 0) and any(x[0] == "call" and x[1].endswith("::parse") for x in walk(nf[1])):
                     okn = only_err_from(g, si.target_of(True))
+                # the same test written as `n >= 0` / `0 <= n` with the branches the other way round
+                if nf and nf[0] == "Le" and deep_strip(nf[1]) == ("const", "int", 0) and any(x[0] == "call" and x[1].endswith("::parse") for x in walk(nf[2])):
+                    okn = si.target_of(False) is not None and only_err_from(g, si.target_of(False))
         r.require(okn, "interval:parsed-negative-rejected", fn=g, detail="a parsed number < 0 reaches only Err returns")
 
     with ctx.rule("L4", "cast inventory", cfg) as r:
@@ -299,7 +358,7 @@ def run_cfg(ctx, p, cfg):
         r.floor("casts-of-deserialised-values", n, 1)
 
     with ctx.rule("L5", "interval unit table", cfg) as r:
-        g = p.fn_closure_calls(TIME_V + "visit_str")
+        g = p.fn_unrolled(TIME_V + "visit_str")
         tests = tables.string_key_tests(g)
         sinks = {}
         for b, i, s in g.assigns():
@@ -312,10 +371,13 @@ def run_cfg(ctx, p, cfg):
             pl = c.t.get("func", {}).get("copy") or c.t.get("func", {}).get("move")
             if not pl or pl["p"] or not c.t.get("args"):
                 continue
-            for b, e in g.root_defs(pl["l"]):
+            cs_ = choice_sinks(g, q.guarded_defs(g, c.t["func"], chains=True)) or [(b, e) for b, e in g.root_defs(pl["l"])]
+            for b, e in cs_:
                 e = strip(e, casts=False)
-                if e[0] == "cast" and "ReifyFnPointer" in str(e[1]) and strip(e[2])[0] == "fnref" and strip(e[2])[1].startswith(INTERVAL + "::"):
-                    var = strip(e[2])[1].rsplit("::", 1)[-1]
+                if e[0] == "cast" and "ReifyFnPointer" in str(e[1]):
+                    e = strip(e[2])
+                if e[0] == "fnref" and e[1].startswith(INTERVAL + "::"):
+                    var = e[1].rsplit("::", 1)[-1]
                     sinks[b] = (var, ("agg", INTERVAL, var, (("0", g.expr(c.t["args"][0])),)))
         tab = tables.key_table(g, tests, list(sinks))
         for key, want in TIME_TABLE.items():
